@@ -152,3 +152,11 @@ func verifUvarintBounds(buf []byte) bool {
 	v, n := binary.Uvarint(buf)
 	return n >= -11 && n <= 10 && n <= len(buf) && (n > 0 || v == 0)
 }
+
+// MemHash wraps runtime.memhash through unsafe (outside the verified subset): it is
+// trusted to be a function of the byte contents (per process) and to write nothing.
+//@ spec func memhash(b ByteSeq) uint64
+//@ func MemHash
+//@   trusted
+//@   ensures result == memhash(data)
+//@   modifies nothing
